@@ -4,8 +4,10 @@ package props
 
 import (
 	"bytes"
+	"encoding/binary"
 	"fmt"
 	"io"
+	"math"
 	"strings"
 	"testing"
 
@@ -184,6 +186,83 @@ func c05Paths(rt *rapid.T) {
 		sameLen(F, d6)
 		if d := diffFrames(F, d6); d != "" {
 			rt.Fatalf("EncodeHeader+EncodeBody decodes differently: %s\n%s", d, desc())
+		}
+	}
+	// 7. what the raw path hands out belongs to the caller: a proxy reads into one *bytes.Buffer, keeps the raw frame and
+	// reuses the buffer for the next read. The raw frame (and a frame decoded directly) must not change with it.
+	buf7 := bytes.NewBuffer(append([]byte{}, stream...))
+	raw7, err := codec.DecodeRawFrame(buf7)
+	if err != nil {
+		rt.Fatalf("DecodeRawFrame from a *bytes.Buffer: %v\n%s", err, desc())
+	}
+	if buf7.Len() != len(sentinel) {
+		rt.Fatalf("DecodeRawFrame from a *bytes.Buffer left %d bytes, want %d", buf7.Len(), len(sentinel))
+	}
+	buf8 := bytes.NewBuffer(append([]byte{}, stream...))
+	F8, err := codec.DecodeFrame(buf8)
+	if err != nil {
+		rt.Fatalf("DecodeFrame from a *bytes.Buffer: %v\n%s", err, desc())
+	}
+	for _, b := range []*bytes.Buffer{buf7, buf8} {
+		b.Reset()
+		b.Write(bytes.Repeat([]byte{0x5a}, len(stream))) // the next network read lands in the same storage
+	}
+	if !bytes.Equal(raw7.Body, enc[h:]) {
+		rt.Fatalf("the raw body returned by DecodeRawFrame changed when the caller reused its *bytes.Buffer: it shares memory with the source\n%s", desc())
+	}
+	conv7, err := codec.ConvertFromRawFrame(raw7)
+	if err != nil {
+		rt.Fatalf("ConvertFromRawFrame after the source buffer was reused: %v\n%s", err, desc())
+	}
+	if d := diffFrames(F, conv7); d != "" {
+		rt.Fatalf("DecodeRawFrame+ConvertFromRawFrame differs from DecodeFrame once the caller has reused its *bytes.Buffer: %s\n%s", d, desc())
+	}
+	if d := diffFrames(F, F8); d != "" {
+		rt.Fatalf("a frame decoded from a *bytes.Buffer changed when the caller reused the buffer: %s\n%s", d, desc())
+	}
+
+	// 8. a header that declares a negative or a shorter body: the body operations must agree with each other - all refuse
+	// a negative length; all consume exactly a shorter declared length
+	for _, declared := range []int32{-1, -15, math.MinInt32, int32(rapid.IntRange(0, len(enc)-h).Draw(rt, "shorterBody"))} {
+		alt := append([]byte{}, stream...)
+		binary.BigEndian.PutUint32(alt[h-4:h], uint32(declared))
+		outcome := map[string]string{}
+		for _, op := range []string{"DecodeRawBody", "DiscardBody(seekable)", "DiscardBody(stream)"} {
+			var r io.Reader
+			br := bytes.NewReader(alt)
+			r = br
+			if op == "DiscardBody(stream)" {
+				r = onlyReader{br}
+			}
+			hd, err := codec.DecodeHeader(r)
+			if err != nil {
+				outcome[op] = "header refused"
+				continue
+			}
+			var operr error
+			if msg := recovered(func() {
+				if op == "DecodeRawBody" {
+					_, operr = codec.DecodeRawBody(hd, r)
+				} else {
+					operr = codec.DiscardBody(hd, r)
+				}
+			}); msg != "" {
+				rt.Fatalf("%s on a header declaring body length %d: %s", op, declared, msg)
+			}
+			if operr != nil {
+				outcome[op] = "refused"
+			} else {
+				outcome[op] = fmt.Sprintf("consumed %d", len(alt)-h-br.Len())
+			}
+		}
+		want := "refused"
+		if declared >= 0 {
+			want = fmt.Sprintf("consumed %d", declared)
+		}
+		for op, got := range outcome {
+			if got != want && got != "header refused" {
+				rt.Fatalf("header declaring body length %d: %s %s, expected %q (all operations: %v)\n%s", declared, op, got, want, outcome, desc())
+			}
 		}
 	}
 	rec.Case(len(enc) > h, canon.Hash(fc.Frame)^uint64(comp)<<1, desc, "paths", "kind:"+fc.Kind, fmt.Sprintf("version:%d", v), "comp:"+comp.String())
